@@ -449,6 +449,28 @@ impl Sim {
         }
     }
 
+    fn touch_k(&mut self, e: Entity, k: K) {
+        let w = self.server.world_mut();
+        macro_rules! touch {
+            ($t:ty) => {
+                if let Some(mut c) = w.get_mut::<$t>(e) {
+                    c.set_changed();
+                }
+            };
+        }
+        match k {
+            K::A => touch!(A),
+            K::B => {}
+            K::C => touch!(C),
+            K::O => touch!(O),
+            K::P => touch!(P),
+            K::S => touch!(S),
+            K::X => touch!(X),
+            K::Y => touch!(Y),
+            K::Z => touch!(Z),
+        }
+    }
+
     fn remove_k(&mut self, e: Entity, k: K) {
         let mut em = self.server.world_mut().entity_mut(e);
         match k {
@@ -1602,6 +1624,69 @@ impl Sim {
                 let stamp = self.clients[client].frames;
                 self.clients[client].c2s[0].push_back(Msg { stamp, tick: 0, bytes: Bytes::from(bytes.clone()) });
                 self.flags.insert("junk_ack");
+            }
+            Step::Noise { slot, on, sparse } => {
+                if !self.cfg.noise || slot >= nslots {
+                    return;
+                }
+                let Some(e) = self.slots[slot] else { return };
+                let v = self.val();
+                let mut em = self.server.world_mut().entity_mut(e);
+                // not a replicated change: neither `op()` nor any reference data moves
+                match (on, sparse) {
+                    (true, false) => {
+                        em.insert(N(v));
+                    }
+                    (true, true) => {
+                        em.insert(NS(v));
+                    }
+                    (false, false) => {
+                        em.remove::<N>();
+                    }
+                    (false, true) => {
+                        em.remove::<NS>();
+                    }
+                }
+                if self.marked[slot] {
+                    self.flags.insert("archetype_move_without_replicated_change");
+                    if self.ops_since_tick > 0 {
+                        self.flags.insert("archetype_move_with_changes_pending");
+                    }
+                }
+            }
+            Step::ClientNoise { client, slot, on } => {
+                if !self.cfg.noise || slot >= nslots || client >= nclients || !self.clients[client].connected {
+                    return;
+                }
+                let Some(e) = self.slots[slot] else { return };
+                let v = self.val();
+                let w = self.clients[client].app.world_mut();
+                let Some(ce) = w.resource::<bevy_replicon::shared::server_entity_map::ServerEntityMap>().to_client().get(&e).copied() else { return };
+                if let Ok(mut em) = w.get_entity_mut(ce) {
+                    if on {
+                        em.insert((N(v), NS(v)));
+                    } else {
+                        em.remove::<(N, NS)>();
+                    }
+                    self.flags.insert("client_side_archetype_move");
+                }
+            }
+            Step::Touch { slot, k } => {
+                if !self.cfg.noise || slot >= nslots {
+                    return;
+                }
+                let Some(e) = self.slots[slot] else { return };
+                if (k == K::P && !self.cfg.periodic) || (matches!(k, K::X | K::Y) && !self.cfg.bundle) || k == K::B {
+                    return;
+                }
+                if self.cfg.periodic && self.entity_has_p(slot) && k != K::P && !self.cfg.no_exclusions {
+                    return self.exclude("F4_other_change_on_entity_with_periodic_component");
+                }
+                if self.has_k(e, k) {
+                    self.touch_k(e, k);
+                    self.op();
+                    self.flags.insert("changed_without_new_value");
+                }
             }
         }
     }
